@@ -133,7 +133,7 @@ def _mk(assumptions, formula=None):
 
 def check_sat(formula, assumptions=(), timeout_ms=60000, cross=True):
     """decide satisfiability of formula under axioms+assumptions"""
-    s = _mk(assumptions, formula)
+    s = _mk(assumptions, None if z3.is_true(formula) else formula)     # satisfiability of the assumptions themselves: no filtering
     s.add(formula)
     r, dt = _check(s, timeout_ms)
     if r == 'unknown':
